@@ -175,6 +175,119 @@ def observe(cfg, rng):
   return rec
 
 
+
+def run_prior_scenario(job):
+  """Eagle seeded with many prior points (each a measure-zero needle with its own score) and a budget that just covers the
+  pool: the best prior must be re-evaluated and returned, whatever its age; candidates stay in the unit cube even when a
+  prior lies outside it."""
+  sc, seed = job
+  import jax
+  import jax.numpy as jnp
+  from vizier import pyvizier as vz
+  from vizier._src.algorithms.optimizers import eagle_strategy as es
+  from vizier._src.algorithms.optimizers import vectorized_base as vb
+  from vizier.pyvizier import converters
+  rng = random.Random(seed)
+  nc, batch = sc['nc'], sc['batch']
+  problem = vz.ProblemStatement()
+  for j in range(nc):
+    problem.search_space.root.add_float_param('x%d' % j, 0.0, 1.0)
+  problem.metric_information.append(vz.MetricInformation('m', goal=vz.ObjectiveMetricGoal.MAXIMIZE))
+  conv = converters.TrialToModelInputConverter.from_problem(problem)
+  ecfg = es.EagleStrategyConfig(**sc['eagle'])
+  fac = es.VectorizedEagleStrategyFactory(eagle_config=ecfg)
+  pool = fac(conv, suggestion_batch_size=batch).pool_size
+  n_pri = {'few': 3, 'pool': pool, 'pool_plus': pool + 2}[sc['n_priors']]
+  budget = {'pool': pool, 'pool_minus_1': max(batch + 1, pool - 1), 'pool_plus': pool + batch - 1}[sc['budget']]
+  # prior points: distinct multiples of 1/64 (exact in float32); chronological order, index 0 = oldest
+  pts = []
+  while len(pts) < n_pri:
+    p = [rng.randrange(1, 63) / 64.0 for _ in range(nc)]
+    if p not in pts:
+      pts.append(p)
+  scores = [10 + rng.randrange(0, 20) for _ in pts]
+  best_i = {'oldest': 0, 'newest': n_pri - 1, 'middle': n_pri // 2}[sc['best']]
+  scores[best_i] = 60
+  if sc['oob']:
+    pts[best_i] = [1.6] + [-0.25] * (nc - 1)          # the best prior lies outside the (current) bounds
+  trials = [vz.Trial(parameters={('x%d' % j): p[j] for j in range(nc)}) for p in pts]
+  prior = conv.to_features(trials)
+  needles = np.asarray(np.asarray(prior.continuous.padded_array)[:, :nc], dtype=np.float32)
+  nscore = jnp.asarray(scores, dtype=jnp.float32)
+  evaluated = []
+
+  def score(x, seed=None):
+    c = x.continuous.padded_array[..., :nc]
+    base = jnp.floor(c[..., 0] * 4.0) % 3.0                       # a dull background: 0, 1, 2
+    hit = jnp.all(c[..., None, :] == jnp.asarray(needles)[None, ...], axis=-1) if c.ndim == 2 else jnp.all(c[..., None, :] == jnp.asarray(needles), axis=-1)
+    s = jnp.where(jnp.any(hit, axis=-1), jnp.max(jnp.where(hit, nscore, -1.0), axis=-1), base)
+    evaluated.append(np.asarray(s).reshape(-1))
+    return s.reshape(c.shape[:-1]) if s.shape != c.shape[:-1] else s
+
+  rec = {'scenario': sc, 'pool': pool, 'n_priors': n_pri, 'budget': budget, 'refused': False}
+  try:
+    opt = vb.VectorizedOptimizerFactory(strategy_factory=fac, max_evaluations=budget, suggestion_batch_size=batch, use_fori=False)(converter=conv)
+    res = opt(score, count=sc['count'], prior_features=prior, seed=jax.random.PRNGKey(seed % 1000))
+  except Exception as e:  # pylint: disable=broad-except
+    rec['refused'] = True
+    rec['error'] = '%s: %s' % (type(e).__name__, str(e)[:200])
+    return rec
+  cont = np.asarray(res.features.continuous).reshape(len(np.asarray(res.rewards)), -1)[:, :nc]
+  rewards = [float(r) for r in np.asarray(res.rewards)]
+  rec['rewards'] = rewards
+  rec['in_bounds'] = bool(np.all(cont >= 0.0) and np.all(cont <= 1.0))
+  rec['count_ok'] = len(rewards) == sc['count']
+  # the reported reward is the score at the returned candidate
+  chk = np.asarray(score(type('X', (), {'continuous': type('P', (), {'padded_array': jnp.asarray(cont)})()})()))
+  rec['reward_is_score'] = bool(np.allclose(chk, np.asarray(rewards)))
+  rec['best_prior'] = 60 if not sc['oob'] else max(s for i, s in enumerate(scores) if i != best_i)
+  rec['best_returned'] = max(rewards) if rewards else None
+  # the whole pool can be evaluated once within the budget (rounds are whole batches)
+  rec['budget_covers_pool'] = (-(-budget // batch)) * batch >= pool
+  return rec
+
+
+def prior_scenarios(ctx, rng):
+  import concurrent.futures as cf
+  import multiprocessing
+  scen = []
+  for nc, batch, eagle in ((2, 5, {}), (4, 8, {'max_pool_size': 20}), (3, 4, {'pool_size': 12})):
+    for n_priors in ('few', 'pool', 'pool_plus'):
+      for best in ('oldest', 'newest', 'middle'):
+        for budget in ('pool', 'pool_minus_1', 'pool_plus'):
+          for oob in (False, True):
+            scen.append(dict(nc=nc, batch=batch, eagle=eagle, n_priors=n_priors, best=best, budget=budget, oob=oob, count=2))
+  if not ctx.thorough:
+    must = [s for s in scen if s['best'] == 'oldest' and s['n_priors'] != 'few' and not s['oob']]
+    rest = [s for s in scen if s not in must]
+    scen = rng.sample(must, min(len(must), 10)) + rng.sample(rest, 10)
+  jobs = [(s, rng.randrange(10 ** 9)) for s in scen]
+  with cf.ProcessPoolExecutor(max_workers=8, mp_context=multiprocessing.get_context('spawn')) as ex:
+    out = list(ex.map(run_prior_scenario, jobs))
+  counts = collections.Counter()
+  for r in out:
+    sc = r['scenario']
+    if r['refused']:
+      v = 'refused'
+    elif not r['count_ok']:
+      v = 'wrong_count'
+    elif not r['in_bounds']:
+      v = 'out_of_bounds'
+    elif not r['reward_is_score']:
+      v = 'reward_is_not_the_score_at_the_candidate'
+    elif r['budget_covers_pool'] and r['best_returned'] < r['best_prior']:
+      v = 'worse_than_prior'
+    else:
+      v = 'ok'
+    counts[v] += 1
+    if v != 'ok':
+      ctx.violation({'via': 'vecopt-priors', 'verdict': v, 'strategy': 'eagle', 'best_prior_is': sc['best'], 'prior_out_of_bounds': sc['oob']},
+                    {'kind': 'vecopt-priors', 'scenario': sc, 'pool_size': r.get('pool'), 'n_priors': r.get('n_priors'), 'budget': r.get('budget'),
+                     'rewards': r.get('rewards'), 'best_prior_score': r.get('best_prior'), 'error': r.get('error')})
+  ctx.log('  %d eagle prior scenarios; verdicts %s' % (len(out), dict(counts)))
+  return {'scenarios': len(out), 'verdicts': dict(counts)}
+
+
 def _observe_job(job):
   cfg, seed = job
   return observe(cfg, random.Random(seed))
@@ -201,6 +314,7 @@ def run(ctx):
       raise tlc.MachineryError('VecOpt model violates %s' % res.violated)
     import c19_pool
     pool_layer = c19_pool.run(ctx, d)
+    ctx.coverage['eagle_prior_scenarios'] = prior_scenarios(ctx, rng)
     chosen, total = configs(ctx, rng)
     t0 = time.time()
     obs = observe_all(chosen, rng)
